@@ -12,8 +12,8 @@ import (
 )
 
 type WriteSet struct {
-	Top    bool // may write anything (call-out to unknown code)
-	Fams   map[string]*Sort
+	Top      bool // may write anything (call-out to unknown code)
+	Fams     map[string]*Sort
 	AllocArr bool // allocates objects that contain array fields
 }
 
